@@ -218,6 +218,7 @@ class State:
         self.refine = {}       # sym id -> Val (a Sym refined to a concrete shape)
         self.visits = {}
         self.eqs = []          # affine expressions known to be zero (multi-symbol equalities)
+        self.sumle = {}        # symbol-name prefix -> bound: any sum of distinct symbols with that prefix is at most the bound
 
     def clone(self):
         s = State()
@@ -233,6 +234,7 @@ class State:
         s.refine = dict(self.refine)
         s.visits = dict(self.visits)
         s.eqs = list(self.eqs)
+        s.sumle = dict(self.sumle)
         return s
 
     def new_cell(self, v):
@@ -255,6 +257,10 @@ class State:
             else:
                 lo += c * h
                 hi += c * l
+        if self.sumle and len(a.terms) > 1:
+            for pre, bound in self.sumle.items():
+                if all(c == 1 and k.startswith(pre) for k, c in a.terms.items()):
+                    hi = min(hi, bound + a.const)
         return lo, hi
 
 
@@ -413,8 +419,9 @@ class Interp:
                     cell, path = cur.cell, cur.path
                 else:
                     # unknown pointee: materialise a cell for it
-                    tgt = Sym("*" + (cur.name if isinstance(cur, Sym) else "p%d" % cell)) if not isinstance(cur, (Seq, Struct, StrV)) else cur
-                    if isinstance(cur, (Seq, Struct, StrV)):
+                    # the pointee of an opaque pointer-like value (Box, &dyn ..) keeps what is known about that value
+                    tgt = Sym("*" + (cur.name if isinstance(cur, Sym) else "p%d" % cell), attrs=(cur.attrs if isinstance(cur, Sym) else None)) if not isinstance(cur, (Seq, Struct, StrV, FnV)) else cur
+                    if isinstance(cur, (Seq, Struct, StrV, FnV)):
                         # a reference-typed value modelled by its referent (slices, strs): deref is the identity
                         nc = st.new_cell(cur)
                     else:
@@ -993,7 +1000,17 @@ class Interp:
             s2 = st.clone()
             fields = {}
             mk = v.attrs.get("make_variant")
-            s2.refine[v.id] = mk(s2, v, n) if mk else Struct(adt, n, {"0": Sym("%s.%s" % (v.name, n))})
+            payload = Sym("%s.%s" % (v.name, n))
+            if v.classes is not None and adt == "serde_json::value::Value":
+                # a JSON value with a class partition: the variant narrows the classes; a String payload keeps the string classes
+                cur = s2.facts.get(("cls", v.name), v.classes)
+                keep = frozenset(c for c in cur if c == n or c.startswith(n + ":"))
+                if not keep:
+                    continue
+                s2.facts[("cls", v.name)] = keep
+                if n == "String":
+                    payload = Seq("str(%s)" % v.name, Aff.sym("len(str(%s))" % v.name), kind="str", attrs={"json": v.name})
+            s2.refine[v.id] = mk(s2, v, n) if mk else Struct(adt, n, {"0": payload})
             s2.cond.append("%s is %s" % (v.name, n))
             out.append((s2, tgt))
         return out
